@@ -329,6 +329,7 @@ pub struct LongLived {
     opts: Opts,
     warm: Ctx,
     texts: usize,
+    clock: u64,
 }
 
 const FIXED_STORE: &str = "{\"onno\":\"\u{0985}\u{09A8}\u{09CD}\u{09AF}\",\"sesh\":\"\u{09B6}\u{09C7}\u{09B7}\",\"a\":\"\u{0986}\u{0983}\",\"park\":\"\u{09AA}\u{09BE}\u{09B0}\u{0995}\"}";
@@ -341,7 +342,7 @@ fn mk_long_lived(shard: usize) -> LongLived {
     opts.smart = shard & 2 != 0;
     opts.ansi = shard & 4 != 0 && shard & 8 != 0;
     let warm = Ctx::new(opts, &sb).expect("context");
-    LongLived { sb, opts, warm, texts: 0 }
+    LongLived { sb, opts, warm, texts: 0, clock: 4_000_000 }
 }
 
 fn long_lived_case(c: &Case, lo: &mut LongLived, st: &mut Stats) -> Result<(), Failure> {
@@ -350,6 +351,36 @@ fn long_lived_case(c: &Case, lo: &mut LongLived, st: &mut Stats) -> Result<(), F
         return Ok(());
     }
     let pf = |p: crate::driver::PanicInfo| fail(&panic_kind(&p), p.to_string(), c);
+    // "the data files" are an argument of the function too: in some cases the user's auto-correct list gains an
+    // entry for the target's word, the long-lived context is told (update-engine, idle) and composes the word,
+    // then the entry is taken out again (the file and another entry stay) and the context is told again.  What
+    // counts is the list in force when the target is typed - the brand-new context below is created over it.
+    if let Some((which, val)) = &c.user_ac {
+        let key = match which % 3 {
+            0 => c.word(),
+            1 => c.base.clone(),
+            _ => c.base.chars().take(2).collect(),
+        };
+        if !key.is_empty() && key.chars().all(|ch| ch.is_ascii_alphanumeric()) {
+            lo.warm.finish().map_err(pf)?;
+            lo.clock += 100;
+            let write = |doc: serde_json::Value, secs: u64| {
+                std::fs::write(lo.sb.autocorrect_file(), doc.to_string()).expect("user ac");
+                std::fs::File::options().write(true).open(lo.sb.autocorrect_file()).expect("open").set_modified(std::time::UNIX_EPOCH + std::time::Duration::from_secs(secs)).expect("mtime");
+            };
+            write(json!({ key.clone(): val, "zzq": "boi" }), lo.clock);
+            lo.warm.update(lo.opts, &lo.sb).map_err(pf)?;
+            lo.warm.type_text(&target).map_err(pf)?;
+            lo.warm.finish().map_err(pf)?;
+            if which % 2 == 0 {
+                write(json!({ "zzq": "boi" }), lo.clock + 10);
+            } else {
+                write(json!({ key.clone(): "kkk", "zzq": "boi" }), lo.clock + 10);
+            }
+            lo.warm.update(lo.opts, &lo.sb).map_err(pf)?;
+            st.label("long-lived-context-saw-the-user-list-change");
+        }
+    }
     let fresh = Ctx::new(lo.opts, &lo.sb).map_err(pf)?;
     lo.warm.finish().map_err(pf)?;
     let chars: Vec<char> = target.chars().collect();
@@ -394,6 +425,7 @@ pub fn run(run: &Run) {
     run.sharded("warm-vs-fresh", 16, run.tier.pick(350, 9000), 400, strategy, |_| (), |c: &Case, st, _| run_case(c, st));
     run.sharded("long-lived-context-vs-fresh", 16, run.tier.pick(450, 6000), 0, strategy, mk_long_lived, |c: &Case, st, lo| long_lived_case(c, lo, st));
     run.require_label("long-lived-context-reached-300-texts", 8);
+    run.require_label("long-lived-context-saw-the-user-list-change", 100);
     run.require_label("store-populated", 50);
     run.require_label("related-warm-up", 50);
     run.require_label("script-has-backspace", 50);
